@@ -486,6 +486,27 @@ pub fn run_tdepth(sink: &mut Sink, _thorough: bool, seed: u64) {
                 }
             }
         }
+        // WIDE documents: many externally tagged non-unit enum variants side by side in one array / one object. Their nesting is
+        // 2 or 3 whatever their length, so all are accepted: the budget a container takes must be given back when it closes
+        // (a `check_recursion!` whose exit is skipped on some path leaks one level per sibling and fails near 127 siblings).
+        if !nolimit {
+            for kind in [5usize, 6, 7, 0, 1, 2, 3, 4, 8, 9] {
+                for n in [100usize, 126, 127, 128, 130, 300] {
+                    let (es, pre, post, l) = layer(kind, Schema::Bool);
+                    let elem = format!("{}true{}", pre, post);
+                    let arr = format!("[{}]", vec![elem.clone(); n].join(","));
+                    let obj = format!("{{{}}}", (0..n).map(|i| format!("\"k{}\":{}", i, elem)).collect::<Vec<_>>().join(" ,"));
+                    for (s, text) in [(Schema::Seq(Box::new(es.clone())), arr), (Schema::Map(KeyKind::Str, Box::new(es.clone())), obj)] {
+                        let se = enc_schema(&s);
+                        for src in ["slice", "reader"] {
+                            let o = outcome(&s, src, text.as_bytes(), chunks(&mut r));
+                            sink.case("ttd", &[c, src, &se, &(1 + l).to_string(), &hexf(text.as_bytes())], &o, &format!("tdepth-verdict:wide:{}", class_of(&o)), true);
+                        }
+                        if n == 130 { for src in ["slice", "reader", "str"] { emit_tt(sink, c, &s, &se, src, text.as_bytes(), &mut r, "tdepth-wide"); } }
+                    }
+                }
+            }
+        }
     }
 }
 
@@ -494,6 +515,7 @@ pub fn replay(sink: &mut Sink, toks: &[&str]) {
     let mut r = Rng::new(1);
     match toks[0] {
         "tt" if toks.len() >= 5 => { let s = dec_schema(toks[3]); let c = if toks[1].contains("nolimit") { toks[1].to_string() } else { cfg.clone() }; emit_tt(sink, &c, &s, toks[3], toks[2], &unhex(toks[4]), &mut r, "replay"); }
+        "ttd" if toks.len() >= 6 => { let s = dec_schema(toks[3]); let o = outcome(&s, toks[2], &unhex(toks[5]), vec![3]); sink.case("ttd", &[&cfg, toks[2], toks[3], toks[4], toks[5]], &o, "replay", true); }
         "tt3" if toks.len() >= 4 => { let s = dec_schema(toks[2]); emit_tt3(sink, &cfg, &s, toks[2], &unhex(toks[3]), &mut r, "replay"); }
         "pfxs" if toks.len() >= 5 => { let s = dec_schema(toks[3]); emit_pfxs(sink, &cfg, &s, toks[2], &unhex(toks[4]), "replay"); }
         "rfaults" if toks.len() >= 6 => {
